@@ -15,7 +15,7 @@ GInit == RInit /\ hist = <<>>
 GInitBoot ==
     /\ cfg \in Configs
     /\ level \in {[mc \in Mods \X Conns |-> v] : v \in InitLevels}
-    /\ alive = Conns /\ last = None /\ day = 1 /\ dated = [f \in Files |-> {}]
+    /\ alive = Conns /\ last = None /\ day = 1 /\ dated = [f \in Files |-> {}] /\ hday = [f \in Files |-> 1]
     /\ hist = <<[act |-> "boot", cfg |-> cfg,
                  exp |-> [level |-> [m \in Mods |-> [c \in Conns |-> level[<<m, c>>]]], last |-> last,
                           day |-> day, dated |-> dated]]>>
